@@ -139,6 +139,10 @@ def locate_slice(values, start, stop, step, issorted=False):
 
         if step is not None and step < 0:
             istart -= 1
+            if istart < 0:
+                # start lies before the first label in traversal order: nothing
+                # to select (a negative start would wrap around to the end)
+                return 0, 0
     else:
         istart = None
 
